@@ -821,6 +821,34 @@ func trackRun(e *Env) {
 		}
 		c.Handle("001", welcomed("fg"))
 		c.HandleBG("001", welcomed("bg"))
+		// one-shot handlers (the first act of the invocation is to remove the
+		// handler): the invocation is a foreground handler like any other, and the
+		// tracker stands still until it returns
+		for _, v := range []string{"JOIN", "353", "MODE", "NICK"} {
+			if !g.Pct(30) {
+				continue
+			}
+			var rm client.Remover
+			fired := false
+			e.S.Count("probe.one-shot-handler-reads-the-tracker")
+			rm = c.HandleFunc(v, func(c *client.Conn, l *client.Line) {
+				if fired {
+					return
+				}
+				fired = true
+				rm.Remove()
+				before := st.String()
+				for i := g.S.Choose(4) * 6; i > 0; i-- {
+					simrt.Sleep(0)
+				}
+				simrt.Sleep(time.Duration(g.S.Choose(4)) * time.Millisecond)
+				after := st.String()
+				e.Check()
+				if canonDump(before) != canonDump(after) {
+					e.Violation("fg-handler-intruded", "a foreground handler that had removed itself (one-shot) was still running when the tracker changed: a later line was applied\nat entry: %s\nat exit:  %s", canonDump(before), canonDump(after))
+				}
+			})
+		}
 		// CONNECTED is raised on behalf of the welcome line, before any later line
 		// is handled: while its foreground handlers run the tracker stands still
 		c.HandleFunc(client.CONNECTED, func(c *client.Conn, l *client.Line) {
